@@ -169,6 +169,25 @@ def run(chk, args):
                   inv="TypeOK Emit", view="")
         jobs.append(("sim", cfg_name(k), text, ["-simulate", "num=%d" % nsim, "-depth", str(depth + 2), "-seed", str(seed * 1000 + i)], 1, k))
 
+    # ---- 2a''. seeded simulation (PrefixSpec): under retryable sync, start from Append; Flush (no Sync); Append and go on at
+    # random (the simulator then finds SetOffset into the unflushed tail among the successors: TailPositions)
+    psims = [k for k in sims if k["retry"] and not k["pre"]]
+    if not thorough:
+        psims = ([k for k in psims if not k["multi"]] + [k for k in psims if k["multi"]])[:1]
+    for i, k in enumerate(psims):
+        a = max(1, min(2, k["W"] - 1))
+        b = max(1, min(2, k["W"] - a))
+        pf = [[("append", a, 0), ("flush", 0, 0), ("append", b, 0)], [("append", 1, 0), ("flush", 0, 0), ("append", 1, 0)]]
+        mb = 16 if k["multi"] else 12
+        text = mk(multi=k["multi"], F=k["F"], W=k["W"], mo=k["mo"], retry=k["retry"], auto=k["auto"], pre=0, mb=mb,
+                  ma=min(6, max(2, k["F"] + 2)) if k["multi"] else 5, mops=12, mc=(mb // k["F"] + 2) if k["multi"] else 0, code=code,
+                  sim=True, emit=12, inv="TypeOK Emit", view="")
+        text = text.replace("SPECIFICATION Spec", "CONSTANT Scripts <- ScriptsV\nSPECIFICATION PrefixSpec")
+        root = ("---- MODULE C17Scripts ----\nEXTENDS AppendableScript\nScriptsV == {%s}\n====\n"
+                % ", ".join("<<%s>>" % ", ".join('<<"%s", %d, %d>>' % e for e in sc) for sc in pf))
+        jobs.append(("psim", cfg_name(k) + " seeded", text, ["-simulate", "num=%d" % nsim, "-depth", "14", "-seed", str(seed * 1000 + 500 + i)], 1,
+                     dict(k, root=root)))
+
     # ---- 2a'. directed behaviours (spec/AppendableScript.tla): physical end of the file beyond its logical end (rewind below
     # the flushed offset / preallocated file), unflushed bytes, Copy, Append, Flush, read-back, re-open, read-back
     R = ("read", 0, 1)
@@ -186,32 +205,32 @@ def run(chk, args):
         [("setoffset", 0, 0), ("append", 3, 0), ("flush", 0, 0), ("setoffset", 1, 0), ("append", 1, 0), ("copy", 0, 0), ("append", 2, 0),
          ("sync", 0, 0), ("read", 0, 4), ("reopen", 0, 0), ("read", 0, 4)],
     ]
-    directed = []
-    modes = rm if thorough else None
-    for di, (multi, pre) in enumerate([(False, 0), (False, 4), (True, 0), (True, 4)]):
-        for (rt, au) in (modes or [(False, False) if di in (0, 3) else rm[(seed + di) % 3]]):
-            directed.append(dict(multi=multi, F=4 if multi else 64, W=8, mo=1, retry=rt, auto=au, pre=pre))
-    directed = [(k, scripts_pre if k["pre"] else scripts_rewind) for k in directed]
-
-    # retryable sync keeps flushed-but-unsynced bytes in the write buffer: Append a; Flush (no Sync); Append b; SetOffset(off) for
-    # every off from the flushed offset to the current offset (both included) and below the flushed offset; Append c; Flush;
-    # Sync; read everything back; re-open; read back.  Size/Offset are compared after every step.  Buffer sizes: everything
-    # fits / a+b overflows (auto-sync frees the buffer in between) / every append overflows.
     def tail_scripts(a, b, c):
+        # retryable sync keeps flushed-but-unsynced bytes in the write buffer: Append a; Flush (no Sync); Append b; SetOffset(off)
+        # for every off from the flushed offset to the current offset (both included) and below the flushed offset; Append c;
+        # Flush; Sync; read everything back; re-open; read back.  Size/Offset are compared after every step.
         out = []
         for off in sorted(set([0, max(a - 1, 0)] + list(range(a, a + b + 1)))):
             n = off + c
             out.append([("append", a, 0), ("flush", 0, 0), ("append", b, 0), ("setoffset", off, 0), ("append", c, 0), ("flush", 0, 0),
-                        ("sync", 0, 0), ("read", 0, n), ("reopen", 0, 0), ("read", 0, n)])
+                        ("sync", 0, 0), ("read", 0, n), ("reopen", 0, 0), ("read", 0, n), R])
         return out
     tails = tail_scripts(3, 3, 2) + tail_scripts(2, 4, 1)
-    TT, TF = (True, True), (True, False)
-    tail_cfgs = [(False, 64, 8, TT), (False, 64, 8, TF), (False, 64, (4, 2, 5)[seed % 3], TT), (True, 16, 9, TF)]
+    FF, TT, TF = (False, False), (True, True), (True, False)
+    # (multi, F, W, sync mode, pre, scripts): buffer sizes such that everything fits / a+b overflows (auto-sync frees the buffer in
+    # between) / every append overflows
+    dcfgs = [(False, 64, 8, FF, 0, scripts_rewind + tails), (False, 64, 8, TT, 0, scripts_rewind + tails),
+             (False, 64, 8, TF, 0, scripts_rewind + tails), (True, 16, 9, TF, 0, scripts_rewind + tails),
+             (False, 64, 8, rm[seed % 3], 4, scripts_pre), (True, 4, 8, FF, 4, scripts_pre)]
+    extra = [(False, 64, 4, TT, 0, tails), (False, 64, 2, TT, 0, tails), (False, 64, 5, TT, 0, tails),
+             (True, 4, 8, FF, 0, scripts_rewind), (True, 4, 8, TT, 0, scripts_rewind + tails)]
     if thorough:
-        tail_cfgs += [(False, 64, w, TT) for w in (2, 3, 4, 5, 12)] + [(False, 64, 12, TF), (True, 16, 8, TT), (True, 4, 8, TT),
-                                                                       (True, 4, 3, TT), (False, 64, 8, (False, False))]
-    for (multi, F, W, (rt, au)) in dict.fromkeys(tail_cfgs):
-        directed.append((dict(multi=multi, F=F, W=W, mo=1, retry=rt, auto=au, pre=0), tails))
+        dcfgs += extra + [(False, 64, 3, TT, 0, tails), (False, 64, 12, TT, 0, tails), (False, 64, 12, TF, 0, tails),
+                          (True, 16, 8, TT, 0, scripts_rewind + tails), (True, 4, 3, TT, 0, tails), (True, 4, 8, TF, 0, scripts_rewind),
+                          (False, 64, 8, TT, 4, scripts_pre), (False, 64, 8, TF, 4, scripts_pre), (True, 4, 8, TT, 4, scripts_pre)]
+    else:
+        dcfgs.append(extra[seed % len(extra)])
+    directed = [(dict(multi=m, F=F, W=W, mo=1, retry=md[0], auto=md[1], pre=pre), scr) for (m, F, W, md, pre, scr) in dcfgs]
 
     for k, scr in directed:
         text = mk(multi=k["multi"], F=k["F"], W=k["W"], mo=k["mo"], retry=k["retry"], auto=k["auto"], pre=k["pre"], mb=16, ma=6,
@@ -219,7 +238,7 @@ def run(chk, args):
         text = text.replace("SPECIFICATION Spec", "CONSTANT Scripts <- ScriptsV\nSPECIFICATION ScriptSpec")
         root = ("---- MODULE C17Scripts ----\nEXTENDS AppendableScript\nScriptsV == {%s}\n====\n"
                 % ", ".join("<<%s>>" % ", ".join('<<"%s", %d, %d>>' % e for e in sc) for sc in scr))
-        jobs.append(("script", cfg_name(k) + (" tail-rewinds" if scr is tails else ""), text, [], 1, dict(k, root=root, n=len(scr))))
+        jobs.append(("script", cfg_name(k) + " (%d scripts)" % len(scr), text, [], 1, dict(k, root=root, n=len(scr))))
 
     def tlc_job(j):
         kind, name, text, extra, workers, meta = j
@@ -230,9 +249,9 @@ def run(chk, args):
     def _tlc_job(j):
         kind, name, text, extra, workers, meta = j
         files = [("c17.cfg", text)]
-        if kind == "script":
+        if kind in ("script", "psim"):
             files.append(("C17Scripts.tla", meta["root"]))
-        return j, vlib.run_tlc("C17Scripts" if kind == "script" else "Appendable", "c17.cfg", workers=workers,
+        return j, vlib.run_tlc("C17Scripts" if kind in ("script", "psim") else "Appendable", "c17.cfg", workers=workers,
                                timeout=3000 if thorough else 1500, extra=extra, files=files, javaopts=JAVA, tag="C17tlc")
 
     with cf.ThreadPoolExecutor(8 if thorough else 7) as ex:
@@ -283,23 +302,25 @@ def run(chk, args):
                 key = json.dumps(b, sort_keys=True)
                 if key not in seen:
                     seen.add(key)
-                    b["origin"] = "tlc-simulate"
+                    b["origin"] = "tlc-simulate-seeded" if kind == "psim" else "tlc-simulate"
                     bs.append(b)
             if len(bs) < nsim // 2:
                 raise MachineryFault("simulation %s printed only %d behaviours" % (name, len(bs)))
+            if len(bs) > 3 * nsim:      # (the simulator prints the candidates of the last step too)
+                bs = sorted(bs, key=lambda b: vlib_hash(seed, json.dumps(b, sort_keys=True)))[:3 * nsim]
             chk.add_tlc(res, "simulate " + name)
             m = re.search(r"Progress: (\d+) states checked, (\d+) traces generated", res.out)
             if m:
                 chk.cov["simulated_states"] = chk.cov.get("simulated_states", 0) + int(m.group(1))
                 chk.cov["simulated_traces"] = chk.cov.get("simulated_traces", 0) + int(m.group(2))
-            replay_sets.setdefault("sim " + name, (meta, []))[1].extend(bs)
+            replay_sets.setdefault(("psim " if kind == "psim" else "sim ") + name, (meta, []))[1].extend(bs)
 
     # ---- 2b. replay on the real code -----------------------------------------------------------------------------------
     comp_all = [1, 2, 3, 4]
     rjobs = []
     for i, (name, (k, bs)) in enumerate(sorted(replay_sets.items())):
         comp = [comp_all[(seed + i) % 4], comp_all[(seed + i + 2) % 4]] if thorough else [comp_all[(seed + i) % 4]]
-        if name.startswith("cex") or name.startswith("directed"):
+        if name.startswith("cex") or name.startswith("directed") or name.startswith("psim"):
             comp = []
         inp = {"cfg": {"Name": name, "Multi": k["multi"], "F": k["F"], "W": k["W"], "MaxOpen": k["mo"], "Retry": k["retry"], "Auto": k["auto"],
                        "Pre": k["pre"], "RB": (k["F"] + 1 if k["multi"] else 2), "Comp": comp, "AltOpts": (seed + i) % 2 == 0},
@@ -353,7 +374,8 @@ def run(chk, args):
             raise MachineryFault("replay never executed %s (vacuous)" % need)
 
     tail = "setoffset:into-unflushed-tail-with-flushed-unsynced-buffered:"
-    chk.cov["setoffset_into_tail_with_flushed_held"] = {"directed": ctr.get(tail + "tlc-directed", 0), "simulated": ctr.get(tail + "tlc-simulate", 0)}
+    chk.cov["setoffset_into_tail_with_flushed_held"] = {"directed": ctr.get(tail + "tlc-directed", 0), "simulated": ctr.get(tail + "tlc-simulate", 0),
+                                                    "simulated_from_seeded_prefix": ctr.get(tail + "tlc-simulate-seeded", 0)}
     if not ctr.get(tail + "tlc-directed"):
         raise MachineryFault("no directed behaviour drove SetOffset into the unflushed tail while flushed-unsynced bytes were buffered (vacuous)")
 
@@ -394,7 +416,7 @@ def is_known(chk, sig):
 
 def vlib_hash(seed, i):
     import hashlib
-    return hashlib.sha256(("%d:%d" % (seed, i)).encode()).hexdigest()
+    return hashlib.sha256(("%d:%s" % (seed, i)).encode()).hexdigest()
 
 
 def tla_set(v):
